@@ -447,7 +447,11 @@ def main() -> None:
         if fn is None:
             from replay import oracles_more  # type: ignore
             fn = oracles_more.ORACLES[spec["oracle"]]
-        rep, detail = fn(spec["inputs"])
+        import inspect
+        if len(inspect.signature(fn).parameters) >= 2:
+            rep, detail = fn(spec["inputs"], spec.get("meta") or {})
+        else:
+            rep, detail = fn(spec["inputs"])
         out["reproduced"], out["detail"] = bool(rep), detail
     except Unreachable as u:
         out["unreachable"], out["detail"] = True, str(u)
@@ -455,6 +459,132 @@ def main() -> None:
         out["detail"] = f"replay harness error: {e!r}"
         out["harness_error"] = True
     print(json.dumps(out))
+
+
+
+
+# ----------------------------------------------------------------------------- declaration oracles
+def _call(S, m, args):
+    """-> ('raise', exc_type_name) | ('ok', schema)"""
+    try:
+        return ("ok", getattr(S, m)(*args))
+    except DeclarationError:
+        return ("raise", "DeclarationError")
+    except Exception as e:       # any other exception type is itself a C10 violation
+        return ("raise", type(e).__name__)
+
+
+def _args(inp, prefix, names):
+    out = []
+    for n in names:
+        v = build(inp[f"{prefix}.{n}"])
+        if n == "max" and v is Nil:
+            continue
+        out.append(v)
+    return out
+
+
+GROUPS = {"min": ["min"], "max": ["max"], "precision": ["precision"], "len": ["len", "min_len", "max_len"],
+          "alphabet": ["alphabet"], "contains": ["substr"], "regex": ["pattern"]}
+
+
+def _decl_args(group, props):
+    """arguments that re-declare refinement `group` as found in `props` (replay JSON)"""
+    g = lambda n: build(props[n]) if n in props else Nil
+    if group == "len":
+        if g("len") is not Nil:
+            return [g("len")]
+        if g("min_len") is not Nil and g("max_len") is not Nil:
+            return [g("min_len"), g("max_len")]
+        if g("min_len") is not Nil:
+            return [g("min_len"), ...]
+        return [..., g("max_len")]
+    return [g(GROUPS[group][0])]
+
+
+def oracle_C11_fn(inp, meta):
+    """function-level: S.<method>(*args) compared with every order obtained by moving one refinement
+    that S already carries behind the new one."""
+    sd = inp["self"]
+    method = meta["method"]
+    args = [build(inp[n]) for n in meta["params"]]
+    if meta["params"] and meta["params"][-1] == "max" and args[-1] is Nil:
+        args = args[:-1]
+    props = sd["props"]
+    S = build(sd)
+    A = _call(S, method, args)
+    if method == "__call__":
+        return False, "value declaration is not a refinement"
+    for group, names in GROUPS.items():
+        present = [n for n in names if n in props]
+        if not present:
+            continue
+        rest = {k: v for k, v in props.items() if k not in names}
+        try:
+            base = build_schema(sd["cls"], rest)
+        except Unreachable:
+            continue
+        gargs = _decl_args(group, props)
+        r1 = _call(base, method, args)
+        B = _call(r1[1], group, gargs) if r1[0] == "ok" else r1
+        desc = f"base={base!r}: {group}{tuple(gargs)!r} then {method}{tuple(args)!r} -> {A}; other order -> {B}"
+        if A[0] != B[0]:
+            return True, "orders disagree on acceptance: " + desc
+        if A[0] == "ok" and not (A[1] == B[1] and repr(A[1]) == repr(B[1])):
+            return True, "orders yield different schemas: " + desc
+    return False, "no order dependence found around this call"
+
+
+def oracle_C11(inp, meta=None):
+    if "m1" not in (meta or {}):
+        return oracle_C11_fn(inp, meta or {})
+    S = build(inp["self"])
+    m1, m2 = meta["m1"], meta["m2"]
+    a, b = _args(inp, "a", meta["a"]), _args(inp, "b", meta["b"])
+    r1 = _call(S, m1, a)
+    A = _call(r1[1], m2, b) if r1[0] == "ok" else r1
+    r2 = _call(S, m2, b)
+    B = _call(r2[1], m1, a) if r2[0] == "ok" else r2
+    desc = f"S={S!r}; {m1}{tuple(a)!r} then {m2}{tuple(b)!r} -> {A}; other order -> {B}"
+    if A[0] != B[0]:
+        return True, "orders disagree on acceptance: " + desc
+    if A[0] == "ok" and not (A[1] == B[1] and repr(A[1]) == repr(B[1])):
+        return True, "orders yield different schemas: " + desc
+    return False, desc
+
+
+def oracle_C10(inp, meta=None):
+    """function-level: self.<method>(*args) either raises DeclarationError leaving self unchanged or
+    returns a schema whose fixed value conforms to it."""
+    S = build(inp["self"])
+    method = meta["method"]
+    args = [build(inp[n]) for n in meta["params"]]
+    if meta["params"] and meta["params"][-1] == "max" and args[-1] is Nil:
+        args = args[:-1]
+    before = repr(S)
+    r = _call(S, method, args)
+    if repr(S) != before:
+        return True, f"receiver changed: {before} -> {S!r}"
+    if r[0] == "raise":
+        if r[1] != "DeclarationError":
+            return True, f"{before}.{method}{tuple(args)!r} raised {r[1]}"
+        return False, "rejected cleanly"
+    R = r[1]
+    target = {"__call__": ["value"], "min": ["min"], "max": ["max"], "precision": ["precision"],
+              "len": ["len", "min_len", "max_len"], "alphabet": ["alphabet"], "contains": ["substr"],
+              "regex": ["pattern"]}.get(method, [])
+    for t in target:
+        if S.props.get(t) is not Nil:
+            return True, f"re-declaration accepted: {before}.{method}{tuple(args)!r} -> {R!r}"
+    v = getattr(R.props, "value", Nil)
+    if v is not Nil and not conforms(R, v):
+        return True, f"{before}.{method}{tuple(args)!r} -> {R!r} whose fixed value {v!r} does not conform to it"
+    if v is not Nil and validate(R, v).has_errors():
+        return True, f"{R!r} rejects its own fixed value {v!r}"
+    return False, f"{before}.{method}{tuple(args)!r} -> {R!r} is self-consistent"
+
+
+ORACLES.update({"C10": oracle_C10, "C11": oracle_C11})
 
 
 if __name__ == "__main__":
